@@ -4,6 +4,13 @@ from . import core
 from .core import Undecided, Unit, VERIF
 
 BUILD = os.path.join(VERIF, "build")
+if os.path.realpath(core.REPO) != "/repo":
+    # scratch trees (self-test mutants, benign refactors) get their own directory so that
+    # concurrent runs never overwrite each other's generated files
+    import hashlib
+    BUILD = os.path.join(BUILD, "scratch-" + hashlib.sha1(os.path.realpath(core.REPO).encode()).hexdigest()[:10])
+    import atexit, shutil
+    atexit.register(lambda: shutil.rmtree(BUILD, ignore_errors=True))
 
 VERIFICATION_MSG = [
     (re.compile(r"^postcondition not satisfied"), "ensures"),
@@ -107,6 +114,19 @@ def run_verus(path, rlimit=30, threads=4, extra=None, multiple_errors=30):
     return {"cmd": " ".join(cmd), "rc": p.returncode, "json": res, "diags": diags, "stderr": p.stderr, "wall": wall}
 
 
+INLINE_RX = re.compile(r"(?:no method named `(?P<m>\w+)` found for (?:reference|struct|mutable reference) `&?(?:mut )?(?P<mp1>[\w:]*::)?(?P<t1>\w+)[^`]*`|no (?:function or )?associated (?:function|item)(?: or constant)? named `(?P<f>\w+)` found for struct `(?P<mp2>[\w:]*::)?(?P<t2>\w+)[^`]*`) in the current scope at (?:src/(?P<rel>[\w/\.]+)|<generated>):")
+
+
+def _rel_of_module(mp):
+    """`a::b::` -> the source file of that module under REPO/src (used when the diagnostic lies in
+    generated text, e.g. an argument copied into an E12 parameter binding)."""
+    segs = [x for x in (mp or "").split("::") if x and x != "crate"]
+    if not segs:
+        return None
+    for cand in ("/".join(segs) + ".rs", "/".join(segs) + "/mod.rs"):
+        if os.path.exists(os.path.join(core.REPO, "src", cand)):
+            return cand
+    return None
 AUTO_RX = re.compile(r"(?:cannot find (?:function|value|type|struct, variant or union type) `(\w+)` in this scope|variable `([A-Z][A-Z0-9_]+)` is not bound in all patterns) at src/([\w/\.]+):")
 
 
@@ -115,9 +135,20 @@ def run_unit(name, prop, canary=False, mutate=None, suffix=""):
     pulled in automatically (at most 4 rounds)."""
     for _ in range(5):
         snap = {k: set(v) for k, v in core.AUTO.items()}
+        snap_inl = {k: set(v) for k, v in core.INLINE.items()}
         out = _run_unit(name, prop, canary, mutate, suffix)
         new = False
         for msg in out["undecided"]:
+            mi = INLINE_RX.search(msg)
+            if mi:
+                nm = (mi.group("t1") + "::" + mi.group("m")) if mi.group("m") else (mi.group("t2") + "::" + mi.group("f"))
+                rel = mi.group("rel") or _rel_of_module(mi.group("mp1") or mi.group("mp2"))
+                if rel is None:
+                    continue
+                if nm not in snap_inl.get(rel, set()):
+                    new = True
+                core.INLINE.setdefault(rel, set()).add(nm)
+                continue
             m = AUTO_RX.search(msg)
             if m:
                 st = core.AUTO.setdefault(m.group(3), set())
@@ -130,7 +161,30 @@ def run_unit(name, prop, canary=False, mutate=None, suffix=""):
     return out
 
 
+def _canary_complete(out):
+    u = out["u"]
+    failed = {f["fn"] for f in out["failures"] if f.get("clause") == "__canary"}
+    return all((not fn["has_body"]) or fn["fn"] in getattr(u, "no_canary", set()) or fn["fn"] in failed
+               for fn in u.functions)
+
+
 def _run_unit(name, prop, canary=False, mutate=None, suffix=""):
+    """Canary runs need ONE canary failure per function.  Asking Verus for many errors per function
+    makes it re-query the solver once per further error, which on large bodies is slow and
+    unstable (same text: 12 s or > 240 s depending on the crate name); so the canary run asks for
+    2 errors per function and escalates (6, 30) only while some function shows other failures
+    but not yet its canary."""
+    if not canary:
+        return _run_unit1(name, prop, canary, mutate, suffix, 30)
+    out = None
+    for me in (2, 6, 30):
+        out = _run_unit1(name, prop, canary, mutate, suffix, me)
+        if out["undecided"] or _canary_complete(out):
+            break
+    return out
+
+
+def _run_unit1(name, prop, canary, mutate, suffix, multiple_errors):
     """Assemble + verify.  Returns dict(unit, failures, undecided, verified, ...)."""
     os.makedirs(BUILD, exist_ok=True)
     u, text = assemble(name, prop, canary, mutate)
@@ -138,9 +192,7 @@ def _run_unit(name, prop, canary=False, mutate=None, suffix=""):
     fname = f"{name}__{tagp}{'__canary' if canary else ''}{suffix}.rs"
     path = os.path.join(BUILD, fname)
     open(path, "w").write(text)
-    # canary runs need one canary failure per function, not every failing exit: a small
-    # --multiple-errors keeps them fast (30 made the whole-handle_htlc canary take minutes)
-    r = run_verus(path, multiple_errors=(6 if canary else 30))
+    r = run_verus(path, multiple_errors=multiple_errors)
     out = {"unit": name, "prop": prop, "canary": canary, "file": path, "cmd": r["cmd"],
            "wall_s": round(r["wall"], 2), "failures": [], "undecided": [], "verified": 0, "errors": 0,
            "smt_ms": None, "u": u}
